@@ -1,17 +1,327 @@
 package main
 
-// Tie with the Lean model (driver nadrv-c10). Filled in below; see docs/VPN.md.
+// Tie with the Lean models of NA.Vpn (driver nadrv-c10):
+//   E: every generated pair that lies in the crypto-map-only sub-fragment (interfaces, ikev1 transform-sets, crypto map
+//      entries with `set peer` / plain attributes / `set ikev1 transform-set` references, crypto map interface bindings)
+//      is encoded structurally; the model's change list must equal the lines the real drc printed.
+//   M: matchCryptoMap alone (hook cisco.VerifMatchCryptoMap, real function on commands built from the same data):
+//      the calls of f, with the names and sequence numbers the target's commands carry at the time of the call.
 
 import (
+	"fmt"
+	"strings"
+
+	"github.com/hknutzen/Netspoc-Approve/go/pkg/cisco"
+
 	. "verifharness/vhlib"
 )
 
 type leanTie struct {
 	ctx *Ctx
 	res *Result
+	drv *Nadrv
 }
 
-func newLeanTie(ctx *Ctx, res *Result) *leanTie { return &leanTie{ctx: ctx, res: res} }
-func (l *leanTie) check(c cfgCase, out string) {}
-func (l *leanTie) finish()                     {}
-func (l *leanTie) close()                      {}
+func newLeanTie(ctx *Ctx, res *Result) *leanTie {
+	return &leanTie{ctx: ctx, res: res, drv: ctx.StartNadrv("c10")}
+}
+
+func (l *leanTie) close() { l.drv.Close() }
+
+var plainKeys = map[string]bool{"set peer": true, "set pfs": true, "set security-association lifetime seconds": true,
+	"set security-association lifetime kilobytes": true, "set nat-t-disable": true, "set ikev1 transform-set": true}
+
+// inFragment: the configuration consists of unmodelled lines, interfaces, transform-sets, static crypto map entries, bindings.
+func inFragment(d *vdev) bool {
+	for _, b := range d.Blocks {
+		w := b.words()
+		switch k, _ := headKind(w); k {
+		case "", "interface", "ts", "cbind":
+		case "cmap":
+			if !plainKeys[cryptoAttrKey(w)] {
+				return false
+			}
+		default:
+			return false
+		}
+	}
+	return true
+}
+
+func flag(b bool) string {
+	if b {
+		return "1"
+	}
+	return "0"
+}
+
+func encodeSide(d *vdev, side string) []string {
+	var intfs, ts, binds []string
+	maps := map[string][]string{}
+	var order []string
+	for _, b := range d.Blocks {
+		w := b.words()
+		switch k, name := headKind(w); k {
+		case "interface":
+			for _, s := range b.Subs {
+				if strings.HasPrefix(s, "nameif ") {
+					intfs = append(intfs, strings.TrimPrefix(s, "nameif "))
+				}
+			}
+		case "ts":
+			ts = append(ts, name+"~"+strings.Join(w[5:], " ")+"~"+flag(strings.Contains(name, "-DRC-")))
+		case "cbind":
+			binds = append(binds, w[2]+"~"+w[4])
+		case "cmap":
+			if _, ok := maps[name]; !ok {
+				order = append(order, name)
+				maps[name] = []string{name + "~" + flag(strings.Contains(name, "-DRC-"))}
+			}
+			orig := strings.Join(w[4:], " ")
+			key := orig
+			var refs []string
+			peer := ""
+			switch cryptoAttrKey(w) {
+			case "set ikev1 transform-set":
+				refs = w[7:]
+				key = "set ikev1 transform-set" + strings.Repeat(" $REF", len(refs))
+			case "set pfs":
+				if orig == "set pfs group14" {
+					key = "set pfs"
+				}
+			}
+			// getPeer: strings.Cut(parsed, "set peer ")
+			if _, p, found := strings.Cut("crypto map $NAME $SEQ "+key, "set peer "); found {
+				peer = "S:" + p
+			}
+			id := len(maps[name]) - 1
+			maps[name] = append(maps[name], fmt.Sprintf("%d~%s~%s~%s~%s~%s", id, w[3], key, orig, peer, strings.Join(refs, ",")))
+		}
+	}
+	var ms []string
+	for _, n := range order {
+		ms = append(ms, strings.Join(maps[n], "#"))
+	}
+	out := []string{side + "ts=" + strings.Join(ts, ";"), side + "m=" + strings.Join(ms, ";"), side + "b=" + strings.Join(binds, ";")}
+	if side == "a" {
+		out = append([]string{"ai=" + strings.Join(intfs, ",")}, out...)
+	}
+	return out
+}
+
+type leanAns struct {
+	conv   bool   // ... and its result is equivalent to the target (NA.Vpn.viewOn)
+	acc    bool   // the Lean device accepts the model's script
+	second string // change list of a second run of the model on the result
+}
+
+// check compares the model's change list with the real one; the answer also carries what the Lean device
+// makes of it (compared with dev.go and with the real second compare by the caller).
+func (l *leanTie) check(c cfgCase, out string) *leanAns {
+	if !(l.ctx.Prop == "C01" || l.ctx.Prop == "C10") {
+		return nil
+	}
+	if !inFragment(c.dev) || !inFragment(c.spoc) {
+		return nil
+	}
+	line := "E\t" + strings.Join(append(encodeSide(c.dev, "a"), encodeSide(c.spoc, "b")...), "\t")
+	ans := l.drv.Ask(line)
+	impl := strings.Join(splitLines(out), "|")
+	l.res.TracesVsImpl++
+	l.res.Count("lean:engine-compared")
+	f := strings.Split(ans, "\t")
+	l.matchTie(c)
+	if len(f) != 4 || f[0] != "ok" || f[1] != impl {
+		l.res.Disagree("vpn-engine", map[string]any{"device": c.Dev, "netspoc": c.Spoc, "encoded": line}, impl, ans)
+		return nil
+	}
+	return &leanAns{acc: strings.HasPrefix(f[2], "acc"), conv: f[2] == "acc+conv", second: f[3]}
+}
+
+// checkCut: the model on an intermediate device of an interrupted run (entries may be incomplete: abort expected then).
+func (l *leanTie) checkCut(st, spoc *vdev, out2 string, status int) {
+	if !inFragment(st) || !inFragment(spoc) {
+		return
+	}
+	line := "E\t" + strings.Join(append(encodeSide(st, "a"), encodeSide(spoc, "b")...), "\t")
+	ans := l.drv.Ask(line)
+	impl := "ok\t" + strings.Join(splitLines(out2), "|")
+	if status != 0 {
+		impl = "abort"
+	}
+	f := strings.Split(ans, "\t")
+	got := ans
+	if len(f) == 4 {
+		got = f[0] + "\t" + f[1]
+	}
+	l.res.TracesVsImpl++
+	l.res.Count("lean:cut-state-compared")
+	if got != impl {
+		l.res.Disagree("vpn-engine-cut", map[string]any{"device": st.print(), "netspoc": spoc.print(), "encoded": line}, impl, ans)
+	}
+}
+
+func splitLines(out string) []string {
+	var ls []string
+	for _, x := range strings.Split(strings.TrimSuffix(out, "\n"), "\n") {
+		if x != "" {
+			ls = append(ls, x)
+		}
+	}
+	return ls
+}
+
+// ---- matchCryptoMap alone
+
+type mcmd struct {
+	name, key, peer string
+	seq             int
+}
+
+func encM(l []mcmd) string {
+	var out []string
+	for i, c := range l {
+		out = append(out, fmt.Sprintf("%d~%s~%d~%s~%s", i, c.name, c.seq, c.key, c.peer))
+	}
+	return strings.Join(out, "#")
+}
+
+func (l *leanTie) askMatch(al, bl []mcmd) {
+	conv := func(l []mcmd) []cisco.VerifVpnCmd {
+		var out []cisco.VerifVpnCmd
+		for i, c := range l {
+			x := cisco.VerifVpnCmd{ID: i, Name: c.name, Seq: c.seq, Parsed: "crypto map $NAME $SEQ " + c.key}
+			if strings.HasPrefix(c.key, "ipsec-isakmp dynamic ") {
+				x.Parsed = "crypto map $NAME $SEQ ipsec-isakmp dynamic $REF"
+				x.Ref = []string{strings.TrimPrefix(c.key, "ipsec-isakmp dynamic ")}
+			}
+			out = append(out, x)
+		}
+		return out
+	}
+	calls, aborted := cisco.VerifMatchCryptoMap(conv(al), conv(bl))
+	impl := "abort"
+	if !aborted {
+		var cs []string
+		for _, call := range calls {
+			var as, bs []string
+			for _, x := range call.A {
+				as = append(as, fmt.Sprint(x.ID))
+			}
+			for _, x := range call.B {
+				bs = append(bs, fmt.Sprintf("%d:%s:%d", x.ID, x.Name, x.Seq))
+			}
+			cs = append(cs, strings.Join(as, ",")+">"+strings.Join(bs, ","))
+		}
+		impl = "ok\t" + strings.Join(cs, ";")
+	}
+	line := "M\t" + encM(al) + "\t" + encM(bl)
+	ans := l.drv.Ask(line)
+	l.res.TracesVsImpl++
+	l.res.Count("lean:match-compared")
+	if aborted {
+		l.res.Count("lean:match-abort")
+	}
+	if ans != impl {
+		l.res.Disagree("vpn-matchCryptoMap", map[string]any{"encoded": line}, impl, ans)
+	}
+}
+
+// matchTie feeds the crypto maps of the case (paired by position) to the bare function.
+func (l *leanTie) matchTie(c cfgCase) {
+	get := func(d *vdev) [][]mcmd {
+		var out [][]mcmd
+		for _, m := range d.kindObjects("cmap") {
+			var l []mcmd
+			for _, b := range d.blocksOf(m) {
+				w := b.words()
+				var seq int
+				fmt.Sscan(w[3], &seq)
+				key := strings.Join(w[4:], " ")
+				peer := ""
+				if _, p, found := strings.Cut(key, "set peer "); found {
+					peer = "S:" + p
+				}
+				l = append(l, mcmd{m.name, key, peer, seq})
+			}
+			out = append(out, l)
+		}
+		return out
+	}
+	am, bm := get(c.dev), get(c.spoc)
+	for i := range bm {
+		if i < len(am) {
+			l.askMatch(am[i], bm[i])
+		}
+	}
+}
+
+// finish: matchCryptoMap on inputs of its own (dynamic peers, entries without peer, colliding and huge numbers).
+func (l *leanTie) finish() {
+	if !(l.ctx.Prop == "C01" || l.ctx.Prop == "C10") {
+		return
+	}
+	r := l.ctx.Rng.Fork()
+	n := l.ctx.N(1500, 20000)
+	genSide := func(name string, dev bool) []mcmd {
+		var out []mcmd
+		ne := r.Intn(6)
+		for i := 0; i < ne; i++ {
+			seq := 1 + r.Intn(8)
+			switch r.Intn(10) {
+			case 0:
+				seq = 65535 - r.Intn(4)
+			case 1:
+				seq = r.Intn(3)
+			}
+			var lines []string
+			peer := ""
+			switch k := r.Intn(20); {
+			case k < 12:
+				peer = "S:" + Pick(r, peerPool[:4])
+				lines = append(lines, "set peer "+Pick(r, peerPool[:4]))
+				peer = "S:" + strings.TrimPrefix(lines[0], "set peer ")
+			case k < 19:
+				d := fmt.Sprintf("name%d@example.com", 1+r.Intn(3))
+				lines = append(lines, "ipsec-isakmp dynamic "+d)
+				peer = "D:" + d
+			}
+			if r.Chance(50) {
+				lines = append(lines, "set pfs")
+			}
+			if r.Chance(30) {
+				lines = append(lines, "set nat-t-disable")
+			}
+			if r.Chance(30) {
+				Shuffle(r, lines)
+			}
+			for _, ln := range lines {
+				p := ""
+				if strings.HasPrefix(ln, "set peer ") || strings.HasPrefix(ln, "ipsec-isakmp dynamic ") {
+					p = peer
+				}
+				out = append(out, mcmd{name, ln, p, seq})
+			}
+		}
+		if r.Chance(30) {
+			Shuffle(r, out)
+		}
+		return out
+	}
+	for i := 0; i < n; i++ {
+		al := genSide("dev-map", true)
+		bl := genSide("spoc-map", false)
+		if i%7 == 0 {
+			// a crowded device: the counters have to skip
+			al = nil
+			for s := 1; s <= 3+r.Intn(5); s++ {
+				al = append(al, mcmd{"dev-map", "set peer 10.9.9." + fmt.Sprint(s), "S:10.9.9." + fmt.Sprint(s), s})
+			}
+			for s := 65535; s > 65535-r.Intn(4); s-- {
+				d := fmt.Sprintf("gone%d@example.com", s)
+				al = append(al, mcmd{"dev-map", "ipsec-isakmp dynamic " + d, "D:" + d, s})
+			}
+		}
+		l.askMatch(al, bl)
+	}
+}
